@@ -18,6 +18,9 @@ MEMLOG = [
     {"T1": [TB(1, 1), TB(2, 2)], "T2": [{"op": "flush", "classes": [1, 2]}, {"op": "reset"}]},
     {"T1": [W(1, 1)], "T2": [W(2, 2)], "T3": [{"op": "serialize"}, W(3, 1)]},
     {"T1": [TB(1, 2)], "T2": [{"op": "flush", "classes": [2]}], "T3": [{"op": "reset"}, W(2, 2)]},
+    # a method that raises (validate() on a message lacking a declared field), then the same thread writes again
+    {"T1": [dict(W(1, 1), bad=True), {"op": "validate"}, W(2, 1)], "T2": [W(3, 2)]},
+    {"T1": [{"op": "validate"}, W(2, 2), W(4, 1)], "T2": [dict(W(1, 1), bad=True), W(3, 2)]},
 ]
 FILES = [{"T1": [1], "T2": [2]}, {"T1": [1, 2], "T2": [3]}, {"T1": [1], "T2": [2], "T3": [3, 4]}]
 
